@@ -284,3 +284,40 @@ PROPERTIES["C11"]["explanation"] += " The continuation-value function used in pe
 for _p in ("C17", "C01", "C08", "C12"):
     PROPERTIES[_p]["rules"] += [sig.user_dags_called_through_dispatchers]
 PROPERTIES["C17"]["explanation"] += " Functions assembled from the model functions are evaluated point by point through a dispatcher, never on whole grids (R10.SCALAR)."
+
+# --------------------------------------------------------------------------------------------------------------------
+# Data-path closure (sixth seed round, "indirect breakage"): a property about an end-to-end result is checked with every
+# rule that decides code on the path from the user's model to that result, not only with the rules of the functions its
+# anchors name.  The rules are unchanged; they are attached to more properties (obligations of an added rule are not
+# filtered).
+
+
+def _union(*pids):
+    out, seen = [], set()
+    for p in pids:
+        for r in PROPERTIES[p]["rules"]:
+            if r.rule_name not in seen:
+                seen.add(r.rule_name)
+                out.append(r)
+    return out
+
+
+_SOLVE_PATH = _union("C01", "C05", "C07", "C10", "C11", "C14", "C15", "C17", "C18", "C19", "C20")
+_SIM_PATH = _SOLVE_PATH + [r for r in _union("C02", "C03", "C04", "C08") if r.rule_name not in {x.rule_name for x in _SOLVE_PATH}]
+_TRANSITION_PATH = _union("C03", "C04", "C07", "C19")
+for _p, _rules, _what in (("C01", _SOLVE_PATH, "solve"), ("C10", _SOLVE_PATH, "solve"), ("C11", _SOLVE_PATH, "solve"),
+                          ("C06", _SIM_PATH, "solve and simulate"), ("C02", _SIM_PATH, "solve and simulate"),
+                          ("C03", _TRANSITION_PATH, "the simulated transitions"), ("C04", _TRANSITION_PATH, "the simulated transitions")):
+    _have = {r.rule_name for r in PROPERTIES[_p]["rules"]}
+    _added = [r for r in _rules if r.rule_name not in _have]
+    PROPERTIES[_p]["rules"] += _added
+    for _r in _added:
+        # a rule that is restricted to some of its obligations where it comes from keeps that restriction
+        for _src in ("C01", "C05", "C07", "C10", "C11", "C14", "C15", "C17", "C18", "C19", "C20", "C02", "C03", "C04", "C08"):
+            _f = PROPERTIES[_src].get("filter", {}).get(_r.rule_name)
+            if _f is not None and _r in PROPERTIES[_src]["rules"]:
+                PROPERTIES[_p].setdefault("filter", {})[_r.rule_name] = _f
+                break
+    if _added:
+        PROPERTIES[_p]["explanation"] += (f" Data-path closure: additionally every rule that decides code on the path of {_what} "
+                                          f"({', '.join(sorted(r.rule_name for r in _added))}).")
